@@ -11,6 +11,7 @@ import Mahotas.Proofs.C15
 import Mahotas.Proofs.C15Thin
 import Mahotas.Proofs.C15Model
 import Mahotas.Proofs.C15Idem
+import Mahotas.Proofs.C15Hull
 open Mahotas Mahotas.C15
 
 /-- **thin ⊆ input.** Every pixel set in the model of `mahotas.thin` (crop to the bounding box, zero
@@ -83,6 +84,15 @@ theorem C15_euler_tables_gray :
     (∀ code : Fin 16, Generated.eulerLookup4.getD code.val 0 =
       grayQuad false (quadBit code 1) (quadBit code 2) (quadBit code 4) (quadBit code 8)) :=
   ⟨euler_powers, euler_den, lookup8_gray, lookup4_gray⟩
+
+/-- **Hull corners are distinct foreground pixels.** Every corner returned by the model of
+`_convex.convexhull` (sort, two in-place monotone-chain scans) is a set pixel of the image, and no
+corner is returned twice — for every image. (Convex position and containment of all foreground
+pixels are checked on the real output by `hullOK`; see `Proofs/C15Graham.lean` for what is proved
+about the scan itself.) -/
+theorem C15_hull_corners_distinct_foreground (b : Bin) :
+    (∀ p ∈ hullModel b, b.get p.1 p.2 = true) ∧ (hullModel b).Nodup :=
+  ⟨fun p hp => foreground_get b p (grahamModel_subset _ p hp), grahamModel_nodup _ (foreground_nodup b)⟩
 
 /-! ### non-vacuity -/
 
